@@ -8,7 +8,7 @@ git -C /repo worktree remove --force "$WT" 2>/dev/null; rm -rf "$WT"
 git -C /repo worktree add -q --detach "$WT" HEAD || exit 2
 cd "$WT"
 lc=$(echo "$ID" | tr 'A-Z-' 'a-z_')
-demo_dir=rspirv/tests; pkg=rspirv
+demo_dir=rspirv/tests; pkg=rspirv; case "$ID" in C20-*) (cd "$WT" && CARGO_NET_OFFLINE=true cargo build --offline -p rspirv-dis >/dev/null 2>&1);; esac
 cp "$SD/demo.rs" $demo_dir/demo_$lc.rs
 CARGO_NET_OFFLINE=true cargo test --offline -p $pkg --test demo_$lc >/tmp/confirm-$ID.clean.log 2>&1; clean_rc=$?
 rm $demo_dir/demo_$lc.rs
@@ -16,12 +16,14 @@ if ! git apply "$SD/patch.diff" 2>/tmp/confirm-$ID.apply.log; then applied=false
 CARGO_NET_OFFLINE=true cargo test --workspace --no-fail-fast --offline >/tmp/confirm-$ID.suite.log 2>&1; suite_rc=$?
 passed=$(grep -E "^test result" /tmp/confirm-$ID.suite.log | awk '{s+=$4} END {print s+0}')
 cp "$SD/demo.rs" $demo_dir/demo_$lc.rs
+case "$ID" in C20-*) CARGO_NET_OFFLINE=true cargo build --offline -p rspirv-dis >/dev/null 2>&1;; esac
 CARGO_NET_OFFLINE=true cargo test --offline -p $pkg --test demo_$lc >/tmp/confirm-$ID.patched.log 2>&1; patched_rc=$?
-compile_err=$(grep -c "^error" /tmp/confirm-$ID.patched.log)
+compile_err=$(grep -c "^error\[E\|could not compile" /tmp/confirm-$ID.patched.log)
+demo_result=$(grep -E "^test result" /tmp/confirm-$ID.patched.log | tail -1 | tr -d '"')
 cd /; git -C /repo worktree remove --force "$WT"; rm -rf "$WT"
 cat > "$SD/confirm.json" <<J
 {"seed": "$ID", "repo_head": "$(git -C /repo rev-parse --short HEAD)", "patch_applied": $applied, "suite_rc": $suite_rc, "suite_tests_passed": $passed,
- "demo_rc_clean": $clean_rc, "demo_rc_patched": $patched_rc, "demo_compile_errors_patched": $compile_err,
+ "demo_rc_clean": $clean_rc, "demo_rc_patched": $patched_rc, "demo_compile_errors_patched": $compile_err, "demo_result_patched": "$demo_result",
  "confirmed": $( [ $applied = true ] && [ $suite_rc -eq 0 ] && [ $clean_rc -eq 0 ] && [ $patched_rc -ne 0 ] && [ $compile_err -eq 0 ] && echo true || echo false )}
 J
 cat "$SD/confirm.json"; rm -f /tmp/confirm-$ID.*.log
